@@ -37,6 +37,8 @@ def classify(what):
         return 'stale-copy'
     if 'concurrent mutations' in w or 'schedule explorer' in w:
         return 'lost-update'
+    if 'overlapped flush' in w or 'in-flight flush' in w:
+        return 'overlapped-flush-loss'
     if 'crash' in w or 'failed flush' in w or 'round trip' in w or 'legacy' in w or 'reload' in w:
         return 'crash-atomicity'
     if 'range query' in w or 'keys(' in w or 'point query' in w:
@@ -53,7 +55,8 @@ def run(ck):
                'remove_array, batch_update, compact, flush (every prefix of its write log loaded), flush with an injected '
                'write failure, crash after k backend steps + reload, range queries (trees to depth 3, both directions, stop '
                'after 1..8 keys, empty groups), keys paging, point queries, stats; legacy manifest-less layouts with stale '
-               'duplicates and tombstones; dirty-tracking probes (clean state, ONE mutation of each kind, flush, reload); schedule explorer: '
+               'duplicates and tombstones; dirty-tracking probes (clean state, ONE mutation of each kind, flush, reload); overlapped-flush probes '
+               '(1..2 mutations landing inside the bucket / metadata write callbacks of a flush, then a quiet flush and a reload); schedule explorer: '
                '2 threads (3 in thorough) doing insert/remove/insert_array/remove_array/compact on overlapping keys, every single '
                'preemption point (key-hash yield points) and a sample of double preemptions. non-trivial = a distinct model-compared history with >= 8 operations, or a '
                'distinct flush log with >= 2 steps')
@@ -80,7 +83,7 @@ def run(ck):
             ck.cov['input_distribution'] = {k: summary[k] for k in (
                 'histories', 'op_histogram', 'history_lengths', 'flushes', 'flushes_with_2plus_dirty_buckets',
                 'crash_points', 'stats_with_migration', 'unique_rejections', 'early_stopped_queries', 'legacy_loads',
-                'dirty_tracking_probes', 'schedule_explorer')}
+                'dirty_tracking_probes', 'overlapped_flush_probes', 'mutations_landed_during_flush', 'schedule_explorer')}
             for f in summary['failures']:
                 ck.violation(classify(f['what']), f['what'], True, {'failing_input': f})
             ck.ob('implementation = BTreeMap<u64,BTreeSet<u64>> oracle on every operation, query, flush round trip and '
